@@ -100,4 +100,119 @@ theorem longLoop_digits (n : Nat) : longLoop (digits30 n) < P ∧ longLoop (digi
       refine ⟨this.1, ?_⟩
       rw [this.2, h2, mod_mul_add_mod, Nat.div_add_mod' n (2 ^ 30)]
 
+/-! ### The mantissa loop of `_Py_HashDouble` -/
+
+/-- `2^z mod P` for an integer exponent: `2` has order 61 modulo `2^61 - 1`. -/
+def pw (z : Int) : Nat := 2 ^ (z % 61).toNat
+
+theorem two_pow_61 : 2 ^ 61 ≡ 1 [MOD P] := by
+  unfold Nat.ModEq
+  rw [P_val]
+  decide
+
+theorem two_pow_mod (n : Nat) : 2 ^ n ≡ 2 ^ (n % 61) [MOD P] := by
+  have h : 2 ^ n = (2 ^ 61) ^ (n / 61) * 2 ^ (n % 61) := by
+    rw [← Nat.pow_mul, ← Nat.pow_add, Nat.div_add_mod]
+  calc 2 ^ n = (2 ^ 61) ^ (n / 61) * 2 ^ (n % 61) := h
+    _ ≡ 1 ^ (n / 61) * 2 ^ (n % 61) [MOD P] := Nat.ModEq.mul_right _ (Nat.ModEq.pow _ two_pow_61)
+    _ = 2 ^ (n % 61) := by rw [Nat.one_pow, Nat.one_mul]
+
+theorem pw_nat (n : Nat) : pw (n : Int) ≡ 2 ^ n [MOD P] := by
+  have h : ((n : Int) % 61).toNat = n % 61 := by omega
+  unfold pw
+  rw [h]
+  exact (two_pow_mod n).symm
+
+theorem pw_add (u v : Int) : pw (u + v) ≡ pw u * pw v [MOD P] := by
+  have h : ((u + v) % 61).toNat = ((u % 61).toNat + (v % 61).toNat) % 61 := by omega
+  unfold pw
+  rw [h, ← Nat.pow_add]
+  exact (two_pow_mod _).symm
+
+theorem two_pow_mul_pw (n : Nat) (z : Int) : 2 ^ n * pw z ≡ pw ((n : Int) + z) [MOD P] :=
+  ((pw_nat n).symm.mul_right _).trans (pw_add n z).symm
+
+theorem lt_two_pow_bitLen (a : Nat) : a < 2 ^ bitLen a := by
+  induction a using Nat.strongRecOn with
+  | _ a ih =>
+    rw [bitLen]
+    by_cases h : a = 0
+    · subst h; simp
+    · rw [dif_neg h]
+      have := ih (a / 2) (Nat.div_lt_self (Nat.pos_of_ne_zero h) (by decide))
+      rw [Nat.pow_succ]
+      omega
+
+theorem lt_P_of_lt_two_pow_28 {y : Nat} (h : y < 2 ^ 28) : y < P := by rw [P_val]; omega
+
+/-- **Invariant of the mantissa loop**: with `m = a / 2^L`, the quantity `x · 2^e + m · 2^e` (modulo `2^61 - 1`, the
+exponent read modulo 61) is preserved; at the end the mantissa is used up. -/
+theorem dblLoop_spec (L : Nat) : ∀ (a x : Nat) (e : Int), a < 2 ^ L → x < P →
+    (dblLoop a L x e).1 < P ∧ (dblLoop a L x e).1 * pw (dblLoop a L x e).2 ≡ x * pw e + a * pw (e - L) [MOD P] := by
+  induction L using Nat.strongRecOn with
+  | _ L ih =>
+    intro a x e ha hx
+    rw [dblLoop]
+    by_cases h0 : a = 0
+    · subst h0
+      simp only [if_true]
+      refine ⟨hx, ?_⟩
+      rw [Nat.zero_mul, Nat.add_zero]
+    · rw [if_neg h0]
+      by_cases hL : L ≤ 28
+      · rw [if_pos hL]
+        have hy : a <<< (28 - L) < 2 ^ 28 := by
+          rw [Nat.shiftLeft_eq]
+          have h2 : 2 ^ 28 = 2 ^ L * 2 ^ (28 - L) := by rw [← Nat.pow_add]; congr 1; omega
+          rw [h2]
+          exact Nat.mul_lt_mul_of_lt_of_le ha (Nat.le_refl _) (Nat.two_pow_pos _)
+        obtain ⟨h1, h2⟩ := accum_spec 28 x (a <<< (28 - L)) hx (by omega) (lt_P_of_lt_two_pow_28 hy)
+        refine ⟨h1, ?_⟩
+        show accum 28 x (a <<< (28 - L)) * pw (e - 28) ≡ _ [MOD P]
+        rw [h2, Nat.shiftLeft_eq]
+        have e1 : ((28 : Nat) : Int) + (e - 28) = e := by omega
+        have e2 : ((28 - L : Nat) : Int) + (e - 28) = e - L := by omega
+        have c1 := two_pow_mul_pw 28 (e - 28)
+        have c2 := two_pow_mul_pw (28 - L) (e - 28)
+        rw [e1] at c1
+        rw [e2] at c2
+        calc (x * 2 ^ 28 + a * 2 ^ (28 - L)) % P * pw (e - 28)
+            ≡ (x * 2 ^ 28 + a * 2 ^ (28 - L)) * pw (e - 28) [MOD P] := (Nat.mod_modEq _ _).mul_right _
+          _ = x * (2 ^ 28 * pw (e - 28)) + a * (2 ^ (28 - L) * pw (e - 28)) := by ring
+          _ ≡ x * pw e + a * pw (e - L) [MOD P] := (c1.mul_left x).add (c2.mul_left a)
+      · rw [if_neg hL]
+        have hL' : 28 < L := Nat.lt_of_not_le hL
+        have h2L : 2 ^ L = 2 ^ (L - 28) * 2 ^ 28 := by rw [← Nat.pow_add]; congr 1; omega
+        have hy : a >>> (L - 28) < 2 ^ 28 := by
+          rw [Nat.shiftRight_eq_div_pow]
+          apply Nat.div_lt_of_lt_mul
+          rw [← h2L]; exact ha
+        have ha' : a % 2 ^ (L - 28) < 2 ^ (L - 28) := Nat.mod_lt _ (Nat.two_pow_pos _)
+        obtain ⟨h1, h2⟩ := accum_spec 28 x (a >>> (L - 28)) hx (by omega) (lt_P_of_lt_two_pow_28 hy)
+        obtain ⟨i1, i2⟩ := ih (L - 28) (by omega) (a % 2 ^ (L - 28)) (accum 28 x (a >>> (L - 28))) (e - 28) ha' h1
+        refine ⟨i1, i2.trans ?_⟩
+        rw [h2, Nat.shiftRight_eq_div_pow]
+        have e1 : ((28 : Nat) : Int) + (e - 28) = e := by omega
+        have e2 : ((L - 28 : Nat) : Int) + (e - L) = e - 28 := by omega
+        have e3 : e - 28 - ((L - 28 : Nat) : Int) = e - L := by omega
+        have c1 := two_pow_mul_pw 28 (e - 28)
+        have c2 := two_pow_mul_pw (L - 28) (e - L)
+        rw [e1] at c1
+        rw [e2] at c2
+        rw [e3]
+        have hdiv : 2 ^ (L - 28) * (a / 2 ^ (L - 28)) + a % 2 ^ (L - 28) = a := Nat.div_add_mod a _
+        generalize a / 2 ^ (L - 28) = y at *
+        generalize a % 2 ^ (L - 28) = a' at *
+        calc (x * 2 ^ 28 + y) % P * pw (e - 28) + a' * pw (e - L)
+            ≡ (x * 2 ^ 28 + y) * pw (e - 28) + a' * pw (e - L) [MOD P] := ((Nat.mod_modEq _ _).mul_right _).add_right _
+          _ = x * (2 ^ 28 * pw (e - 28)) + (y * pw (e - 28) + a' * pw (e - L)) := by ring
+          _ ≡ x * pw e + (y * (2 ^ (L - 28) * pw (e - L)) + a' * pw (e - L)) [MOD P] :=
+              (c1.mul_left x).add (((c2.mul_left y).symm).add_right _)
+          _ = x * pw e + (2 ^ (L - 28) * y + a') * pw (e - L) := by ring
+          _ = x * pw e + a * pw (e - L) := by rw [hdiv]
+
+theorem finalShift_eq (e : Int) : finalShift e = (e % 61).toNat := by
+  unfold finalShift
+  split <;> omega
+
 end Einx.Cache.NumHash
